@@ -1,6 +1,7 @@
 """C20 — named styles resolve through a well-behaved theme stack.
 
-Correspondence: Lean model (Model/Theme, Model/ConfigParser) vs rich.theme / rich.console, in-process.
+Correspondence: Lean model (Model/Theme, Model/ThemeThreads, Model/ConfigParser) vs rich.theme / rich.console, in-process
+(threads: real threads handed one atomic step at a time).
 Direct evaluation (3d): the executable statements of the theorems in Props/C20.lean on the real outputs,
 with an oracle written from the property statement (a list of (theme, inherit) frames over a base),
 independent of the Lean model.
@@ -1249,8 +1250,9 @@ def run(ctx):
     n_txt = 1500 if ctx.quick else 40000
     for i in range(n_txt):
         k = rng.randint(0, 5)
-        # mostly lines inside the modelled subset of configparser; the rest (indentation, other sections, references,
-        # non-ASCII names) makes the model answer `unmodelled`
+        # mostly lines the configparser model answers (indentation, other sections, [DEFAULT], %(name)s with interpolation
+        # off and non-ASCII names are all modelled now); the rest - option names with a capital sigma U+03A3 while names are
+        # lower-cased - makes the model answer `unmodelled`
         lines = [rng.choice(pieces if rng.random() < 0.04 else modelled_pieces) for _ in range(k)]
         if rng.random() < 0.7:
             lines.insert(0, "[styles]")
@@ -1265,8 +1267,8 @@ def run(ctx):
     ctx.flush()
     ctx.rule = (
         "every history forest with <= %d statements over {push(A,inherit), push(B,no-inherit), pop, raise, use(A,no-inherit)[..], "
-        "use(B,inherit)[..]} on a 3-name base, each with %d lookups after every statement (bounded-exhaustive), + seeded random "
-        "histories to depth 4 / 12 statements over random themes (1 in 8 on the default console); Theme() over 9 names x 22 definitions; "
+        "use(B,inherit)[..]} on a 4-name base, each with %d lookups after every statement (bounded-exhaustive), + seeded random "
+        "histories to depth 4 / 12 statements over random themes (1 in 8 on the default console); Theme() over 12 names x 24 definitions; "
         "config round trip over random themes (names: safe/non-ASCII/upper-case/hostile; styles: 13 attributes x 9 colours x 11 links) "
         "and random config texts over %d line shapes (\\n / \\r\\n / \\r endings, BOM, 1 in 6 through Theme.read on a real file); "
         "every stack of <= %d pushes over 4 themes x inherit looked up at each level and popped; every 1-thread word <= %d over "
@@ -1302,8 +1304,9 @@ MANIFEST = {
     "Theme.config wrote, for all entry lists with safe names/values; `config_roundtrip` over the abstract contract, "
     "`config_roundtrip_model`/`_inherit`; `from_file_total` (a Theme, a configparser exception or Style.parse's exception, for every "
     "text); `read_is_from_file` (+ CR/BOM witnesses); `default_names_safe` by `decide +kernel` on the DEFAULT_STYLES keys translated "
-    "on every run. Witnesses by `decide` for the repaired/known defects: `old_use_theme_ignores_inherit`, `old_history_is_forced_inherit`, "
-    "`old_config_percent_breaks`/`_changes_value`, `old_config_lowercases_names`. "
+    "on every run; `configparser_fragment_examples`/`_errors` (concrete instances of the parser model); `trace_is_run`. Witnesses for the "
+    "repaired/known defects: `old_use_theme_ignores_inherit`, `old_config_percent_breaks`/`_changes_value`, "
+    "`old_config_lowercases_names` (by `decide`) and `old_history_is_forced_inherit` (for every history). "
     "Tie: every history forest with <=3 (quick) / <=4 (thorough) statements over 6 statement kinds with 27 lookups after each statement; "
     "every stack of <=3 (4) pushes over 4 themes x inherit; seeded random histories to depth 4; all push/pop words <=5 (7) directly on "
     "ThemeStack; every 1-thread word <=3 (4) with outside dict mutations and every 2-thread schedule <=3 (4) on real threads, random "
@@ -1320,8 +1323,10 @@ MANIFEST = {
     "without CR for Theme.read). Threads: steps are atomic and follow the schedule (no preemption inside push_theme/pop_theme is "
     "exhibited). Outside mutation: only item assignment on styles dicts; the base entry aliases the base theme's dict as the code has "
     "it, and a mutation is invisible under an open inheriting push until it is popped (documented non-finding). `Console(theme=t)` "
-    "testing `not theme` instead of `is None` is equivalent (Theme has no __bool__/__len__). Code-variant flags at the top of this file: "
-    "CFG_LOWER=1 is the known finding config-name-case; STACK_SHARED=1 records that all threads of a Console share one ThemeStack "
+    "testing `not theme` instead of `is None` is equivalent (Theme has no __bool__/__len__). Code-variant flags at the top of this file "
+    "(current values = the code in /repo): CTX_IGNORES_INHERIT=0 (repaired, fix 2ea71d3), CFG_INTERP=0 (repaired, fix 1124f7d), "
+    "CFG_LOWER=1 is the known finding config-name-case (not repaired; every round trip it explains is printed as a KNOWN-FINDING "
+    "line and not counted as a violation); STACK_SHARED=1 records that all threads of a Console share one ThemeStack "
     "(threading.local re-runs __init__ with the same object). That sharing is NOT a defect and not part of C20, whose statement is about "
     "single-threaded histories (a Live/Progress refresh thread must see the themes the main thread pushed): the two-thread behaviour "
     "is only compared with the `shared = true` model in the correspondence, so a change of it is noticed as model != code; "
